@@ -50,7 +50,7 @@ fn gen(t: Tier, _seed: u64, emit: &mut dyn FnMut(Case)) {
             emit(Case::SeqAllPairs { cid, n });
             n += 1;
         }
-        for n in wb_lengths(cid.bits(), t.pick(2, 3)).into_iter().chain(long_lengths(cid.bits()).into_iter().take(t.pick(4, 7))) {
+        for n in wb_lengths(cid.bits(), t.pick(2, 3)).into_iter().chain(long_lengths(cid.bits()).into_iter().take(t.pick(4, 7))).chain(huge_lengths(cid.bits()).into_iter().step_by(2)) {
             if n > 0 {
                 emit(Case::SeqOnePosition { cid, n });
             }
@@ -299,8 +299,18 @@ fn run_g<A: SxK>(c: &Case, out: &mut Out) {
             by_code.sort_by_key(|a| a.to_bits());
             let (lo, hi) = (by_code[0], by_code[m - 1]);
             let base = syms::<A>(&bg(*n, m, 122, out.seed));
-            for p in 0..*n {
-                for (xi, &x) in al.iter().enumerate() {
+            let positions: Vec<usize> = if *n <= 300 {
+                (0..*n).collect()
+            } else {
+                let spw = (64 / bits).max(1);
+                let mut p = vec![0, 1, *n / 2, *n - 2, *n - 1, spw - 1, spw, 64 * spw - 1, 64 * spw];
+                p.retain(|x| *x < *n);
+                p.sort();
+                p.dedup();
+                p
+            };
+            for p in positions {
+                for (xi, &x) in al.iter().enumerate().filter(|(xi, _)| *n <= 300 || *xi == 0 || *xi == m - 1) {
                     let y = al[(xi + 1 + p % (m - 1)) % m];
                     if x == y {
                         continue;
